@@ -248,8 +248,13 @@ fn final_outcomes(a: &Args) {
         let stop = c["stopOnError"].as_bool().unwrap();
         let pre = c["preCancel"].as_bool().unwrap();
         let has_panic = outcome.iter().any(|o| o == "panic");
-        for kind in ["custom", "builtin"] {
+        // "sync": custom jobs whose operations wait for each other (bounded spin), so that the workers leave their
+        // jobs within a few instructions of one another - the schedule in which unsynchronised counters lose updates
+        for kind in ["custom", "sync", "builtin"] {
             if kind == "builtin" && has_panic {
+                continue;
+            }
+            if kind == "sync" && w < 2 {
                 continue;
             }
             for rep in 0..reps {
@@ -264,15 +269,25 @@ fn final_outcomes(a: &Args) {
                 let mut opts = opts;
                 opts.progress_interval = Duration::from_millis(1);
                 let mut bp = BatchProcessor::new(opts);
+                let arrive = Arc::new(AtomicU64::new(0));
                 for i in 0..n {
                     let o = outcome[i].as_str();
-                    if kind == "custom" {
+                    if kind == "custom" || kind == "sync" {
                         let ran = ran.clone();
                         let oc: u8 = match o { "ok" => 0, "err" => 1, _ => 2 };
+                        let arrive = arrive.clone();
+                        let target = if kind == "sync" { w.min(n) as u64 } else { 0 };
                         bp.add_job(BatchJob::Custom {
                             name: format!("job{i}"),
                             operation: Box::new(move || {
                                 ran[i].fetch_add(1, Ordering::SeqCst);
+                                if target > 0 {
+                                    let wave = arrive.fetch_add(1, Ordering::SeqCst) / target;
+                                    let t0 = std::time::Instant::now();
+                                    while arrive.load(Ordering::SeqCst) < (wave + 1) * target && t0.elapsed() < Duration::from_millis(3) {
+                                        std::hint::spin_loop();
+                                    }
+                                }
                                 match oc {
                                     0 => Ok(()),
                                     1 => Err(PdfError::InvalidStructure("fails".into())),
@@ -298,7 +313,7 @@ fn final_outcomes(a: &Args) {
                 let summary = with_watchdog(20, &mut out, hang, move || bp.execute());
                 let mut op_runs: Vec<i64> = vec![-1; n];
                 for i in 0..n {
-                    if kind == "custom" {
+                    if kind != "builtin" {
                         op_runs[i] = ran[i].load(Ordering::SeqCst) as i64;
                     } else if outcome[i] == "ok" {
                         let outp = format!("{dir}/out_{ci}_{rep}_{i}.pdf");
